@@ -403,6 +403,41 @@ fn run_case(case: &LendersCase) -> Outcome {
                 }
             }
         }
+        "line_file" | "zstd_file" | "gzip_file" => {
+            // the convenience constructors over a real file (no fault injection possible here: the
+            // history is the only simulated dimension)
+            let dir = tempfile::tempdir().expect("tempdir");
+            let path = dir.path().join("input");
+            let bytes = match case.kind.as_str() {
+                "zstd_file" => zstd::encode_all(&text[..], 1).expect("zstd encode"),
+                "gzip_file" => {
+                    let mut enc = flate2::write::GzEncoder::new(Vec::new(), flate2::Compression::fast());
+                    enc.write_all(&text).unwrap();
+                    enc.finish().unwrap()
+                }
+                _ => text.clone(),
+            };
+            std::fs::write(&path, bytes).expect("write input file");
+            set_op("from_path");
+            match case.kind.as_str() {
+                "line_file" => match (LineLender::from_path(&path), case.take) {
+                    (Ok(l), Some(n)) => drive!(case, l.take(n), &model, stats, &mut h, s2s),
+                    (Ok(l), None) => drive!(case, l, &model, stats, &mut h, s2s),
+                    (Err(e), _) => h.out.fail(Violation::new("ctor_failed", sig(case, "from_path_failed"), format!("{e}"), "Ok")),
+                },
+                "zstd_file" => match (ZstdLineLender::from_path(&path), case.take) {
+                    (Ok(l), Some(n)) => drive!(case, l.take(n), &model, stats, &mut h, s2s),
+                    (Ok(l), None) => drive!(case, l, &model, stats, &mut h, s2s),
+                    (Err(e), _) => h.out.fail(Violation::new("ctor_failed", sig(case, "from_path_failed"), format!("{e}"), "Ok")),
+                },
+                _ => match (GzipLineLender::from_path(&path), case.take) {
+                    (Ok(l), Some(n)) => drive!(case, l.take(n), &model, stats, &mut h, s2s),
+                    (Ok(l), None) => drive!(case, l, &model, stats, &mut h, s2s),
+                    (Err(e), _) => h.out.fail(Violation::new("ctor_failed", sig(case, "from_path_failed"), format!("{e}"), "Ok")),
+                },
+            }
+            h.out.fault_n("restart.real_file", 1);
+        }
         "vec" => {
             let items: Vec<String> = model.clone();
             let l = FromIntoIterator::from(items);
@@ -490,7 +525,11 @@ impl World for LendersWorld {
     const NAME: &'static str = "lenders";
 
     fn generate(_prop: &str, tier: Tier, run: u64, rng: &mut Rng) -> LendersCase {
-        let kind = *rng.pick(&["line", "line", "line", "zstd", "zstd", "gzip", "gzip", "vec", "range"]);
+        let kind = if run % 97 == 13 {
+            *rng.pick(&["line_file", "zstd_file", "gzip_file"])
+        } else {
+            *rng.pick(&["line", "line", "line", "zstd", "zstd", "gzip", "gzip", "vec", "range"])
+        };
         // one in three runs is a fault-free configuration (legal behaviours only)
         let legal_only = run % 3 != 2;
         let big = rng.chance(1, if tier == Tier::Quick { 60 } else { 25 });
@@ -542,7 +581,7 @@ impl World for LendersWorld {
                 _ => rng.urange(0, total),
             });
         }
-        if !legal_only && kind != "vec" && kind != "range" {
+        if !legal_only && kind != "vec" && kind != "range" && !kind.ends_with("_file") {
             let bytes = text_of(&c).len() as u64;
             if rng.chance(2, 3) {
                 c.plan.fail_at_byte = Some(rng.range(0, bytes.max(1)));
